@@ -277,9 +277,10 @@ def run_case(ctx, case):
     if pat == 'big' and D > 6:
         # recurrences that divide by x_0 amplify rounding like (|x_k|/|x_0|)^d: keep |x_k| <= 3 at high order (guard of section 2.4)
         data[1:] *= 0.1
-    if not cplx and dom in ('R', 'unit', 'gtm1', 'tan', 'small') and (p['entry'] + D) % 5 == 0 and not name.startswith(('hyperu', 'polygamma', 'psi', 'gammaln')):
+    if not cplx and dom in ('R', 'unit', 'gtm1', 'tan', 'small') and (p['entry'] + D) % 5 == 0 and not name.startswith(('hyperu', 'polygamma', 'psi', 'gammaln', 'pow')):
         # the base point exactly 0 (in every element and direction), where the function is smooth: sign(0) = 0 and 0 * x are
-        # favourite shortcuts of rewritten kernels
+        # favourite shortcuts of rewritten kernels (powers at a vanishing base are C02's, with an exact reference: numerical
+        # differentiation of z**12 at 0 leaves 1e-177 of noise where the exact coefficient is 0)
         data[0] = 0.0
     single = bool(p.get('single')) and not name.startswith(('hyperu', 'polygamma', 'psi', 'gammaln'))
     if single:
